@@ -268,7 +268,7 @@ def _long_sequences(ind: ClassInfo) -> List[List[str]]:
 
 
 def _indenter_by_interpretation(ctx, ind: ClassInfo):
-    """Indentizer.to_list / to_str interpreted (dznverif.scenario, E6) for: spaces 0 / 1 / 4 or tab  x  no bullets / all lines /
+    """Indentizer.to_list / to_str interpreted (dznverif.scenario, E7) for: spaces 0 / 1 / 4 or tab  x  no bullets / all lines /
     first line only with a glyph shorter ('-') and longer ('>>>>>') than the indent width  x  every sequence of up to two
     lines (and some of three) over {'' , '  ', 'x', ' y '}.  Expected, from the statement of C18: as many lines, in order;
     a blank line stays '' (the bare glyph where a bullet goes); any other line is <whitespace><line>, a bulleted line
